@@ -52,7 +52,7 @@ def main(tier: str) -> int:
     if not cxxlab.tools_available():
         raise common.Inconclusive('g++ / clang++-14 not available')
     run = common.Run(PROP, tier)
-    n = 12 if tier == 'quick' else 150
+    n = 12 if tier == 'quick' else 500
     run.require('stimuli', 'arrivals', 'args_compared', 'returns_compared', 'programs',
                 'programs_multiclient', 'programs_with_ports_sharing_an_interface')
     scratch = run.scratch()
